@@ -80,6 +80,8 @@ impl Pipeline {
     /// This is typically called by transformation builders like
     /// [`map`](crate::PCollection::map) or [`group_by_key`](crate::PCollection::group_by_key).
     pub(crate) fn insert_node(&self, node: Node) -> NodeId {
+        #[cfg(feature = "verif-hooks")]
+        crate::verif::yield_point("pipeline");
         let mut g = self.inner.lock().unwrap();
         let id = NodeId::new(g.next_id);
         g.next_id += 1;
@@ -91,6 +93,8 @@ impl Pipeline {
     ///
     /// Used to chain together consecutive transforms within the same pipeline.
     pub(crate) fn connect(&self, from: NodeId, to: NodeId) {
+        #[cfg(feature = "verif-hooks")]
+        crate::verif::yield_point("pipeline");
         self.inner.lock().unwrap().edges.push((from, to));
     }
 
@@ -104,6 +108,8 @@ impl Pipeline {
     /// If the pipeline is in an inconsistent state, such as during concurrent modifications.
     #[must_use]
     pub fn snapshot(&self) -> (HashMap<NodeId, Node>, Vec<(NodeId, NodeId)>) {
+        #[cfg(feature = "verif-hooks")]
+        crate::verif::yield_point("pipeline");
         let g = self.inner.lock().unwrap();
         (g.nodes.clone(), g.edges.clone())
     }
@@ -118,6 +124,8 @@ impl Pipeline {
     /// If the pipeline is in an inconsistent state, such as during concurrent modifications.
     #[cfg(feature = "metrics")]
     pub fn set_metrics(&self, metrics: MetricsCollector) {
+        #[cfg(feature = "verif-hooks")]
+        crate::verif::yield_point("pipeline");
         let mut g = self.inner.lock().unwrap();
         g.metrics = Some(metrics);
     }
@@ -132,6 +140,8 @@ impl Pipeline {
     #[cfg(feature = "metrics")]
     #[must_use]
     pub fn take_metrics(&self) -> Option<MetricsCollector> {
+        #[cfg(feature = "verif-hooks")]
+        crate::verif::yield_point("pipeline");
         let mut g = self.inner.lock().unwrap();
         g.metrics.take()
     }
@@ -144,6 +154,8 @@ impl Pipeline {
     #[cfg(feature = "metrics")]
     #[must_use]
     pub fn get_metrics(&self) -> Option<MetricsCollector> {
+        #[cfg(feature = "verif-hooks")]
+        crate::verif::yield_point("pipeline");
         let g = self.inner.lock().unwrap();
         g.metrics.clone()
     }
@@ -155,6 +167,8 @@ impl Pipeline {
     /// If the pipeline is in an inconsistent state, such as during concurrent modifications.
     #[cfg(feature = "metrics")]
     pub fn record_metrics_start(&self) {
+        #[cfg(feature = "verif-hooks")]
+        crate::verif::yield_point("pipeline");
         let g = self.inner.lock().unwrap();
         if let Some(ref metrics) = g.metrics {
             metrics.record_start();
@@ -168,6 +182,8 @@ impl Pipeline {
     /// If the pipeline is in an inconsistent state, such as during concurrent modifications.
     #[cfg(feature = "metrics")]
     pub fn record_metrics_end(&self) {
+        #[cfg(feature = "verif-hooks")]
+        crate::verif::yield_point("pipeline");
         let g = self.inner.lock().unwrap();
         if let Some(ref metrics) = g.metrics {
             metrics.record_end();
